@@ -203,6 +203,11 @@ func (p *pki) serverCert(c Chain, hostKind string, sniNames []string) (tls.Certi
 		tpl.NotBefore, tpl.NotAfter = now.Add(-48*time.Hour), now.Add(-24*time.Hour)
 	case "notyet":
 		tpl.NotBefore, tpl.NotAfter = now.Add(24*time.Hour), now.Add(48*time.Hour)
+	case "expired_since_config":
+		// valid while the endpoint is created, expired when the handshake is made (runRow waits for the boundary)
+		tpl.NotBefore, tpl.NotAfter = now.Add(-time.Hour), shiftBoundary(now)
+	case "valid_since_config":
+		tpl.NotBefore, tpl.NotAfter = shiftBoundary(now), now.Add(24*time.Hour)
 	default:
 		return tls.Certificate{}, fmt.Errorf("validity %q", c.Validity)
 	}
@@ -251,6 +256,10 @@ func (p *pki) serverCert(c Chain, hostKind string, sniNames []string) (tls.Certi
 	}
 	return out, nil
 }
+
+// shiftBoundary is the instant at which a time-shifted leaf changes its validity (certificate times have a
+// resolution of one second)
+func shiftBoundary(now time.Time) time.Time { return now.Truncate(time.Second).Add(4 * time.Second) }
 
 var goodChain = Chain{Signer: "direct", Extra: false, SAN: "bundleHost", Validity: "current"}
 
@@ -532,6 +541,25 @@ func runRow(p *pki, row Row) (res Result) {
 		res.Infra = "mint: " + err.Error()
 		return
 	}
+	// time-shifted validity: the endpoints must exist before the boundary, the handshakes are made after it
+	var boundary time.Time
+	switch nodeChain.Validity {
+	case "expired_since_config":
+		boundary = nodeCert.Leaf.NotAfter
+	case "valid_since_config":
+		boundary = nodeCert.Leaf.NotBefore
+	}
+	crossBoundary := func() bool {
+		if boundary.IsZero() {
+			return true
+		}
+		if !time.Now().Before(boundary.Add(-200 * time.Millisecond)) {
+			res.Infra = "endpoint was created too late for a time-shifted row"
+			return false
+		}
+		time.Sleep(time.Until(boundary.Add(1200 * time.Millisecond)))
+		return true
+	}
 	if row.Target == "metadata" {
 		res.ChainLen = len(metaCert.Certificate)
 	} else {
@@ -573,7 +601,7 @@ func runRow(p *pki, row Row) (res Result) {
 		Port: ms.port(),
 	}
 	resolver := astra.NewResolver(bundle, 5*time.Second)
-	ctx, cancel := context.WithTimeout(context.Background(), 10*time.Second)
+	ctx, cancel := context.WithTimeout(context.Background(), 20*time.Second)
 	defer cancel()
 	eps, rerr := resolver.Resolve(ctx)
 	res.ResolveOK = rerr == nil
@@ -632,6 +660,9 @@ func runRow(p *pki, row Row) (res Result) {
 		if rerr != nil {
 			res.Infra = "metadata service with a valid chain was not accepted: " + rerr.Error()
 		}
+		if !crossBoundary() {
+			break
+		}
 		for _, ep := range eps {
 			connect(ep, true)
 		}
@@ -653,6 +684,9 @@ func runRow(p *pki, row Row) (res Result) {
 			break
 		}
 		res.Endpoints = []string{ep.Key()}
+		if !crossBoundary() {
+			break
+		}
 		connect(ep, row.Draw%2 == 0) // odd draws: raw proxycore.Connect, even draws: ConnectClient
 	}
 	time.Sleep(2 * time.Millisecond)
